@@ -107,8 +107,10 @@ class SrvUnderTest(object):
 
     def pool_workers(self):
         # workers of the request pool the server stops: the user pool (named) or the default one
-        prefixes = (self.poolname + "-",) if self.user_pool is not None else ("PooledJSONRPCServer-",)
-        return [t for t in threading.enumerate() if t.name.startswith(prefixes) and t not in self.preexisting]
+        # thread names are not part of the pool's API: its workers are the threads that appeared after this server
+        # was built and that the harness did not create
+        return [t for t in threading.enumerate() if t not in self.preexisting and not t.name.startswith("vf-")
+                and t.name != "MainThread"]
 
 
 # ---------------------------------------------------------------------------
@@ -516,7 +518,13 @@ def run(ctx):
                 break
             clients_workload(ctx, rng, inj, cell, fam)
     # 1b. stall sweep: requests arriving while pool workers retire
-    pts = idle_gap_points()
+    # the pool-module lines that pool workers and the accept thread were seen executing in the workloads above
+    import jsonrpclib.threadpool as tpmod
+    pool_lines = set(inject.statement_lines(tpmod))
+    pts = [{"qualname": q, "line": l, "role": r, "k": k} for (q, l, r) in sorted(inj.seen)
+           if (q, l) in pool_lines and r in ("worker", "serve") for k in (1, 2, 3, 5)]
+    if not pts:
+        pts = idle_gap_points()
     mine = [pt for i, pt in enumerate(pts) if ctx.mine(i)]
     rng.shuffle(mine)
     for pt in mine[:ctx.pick(14, 10 ** 6)]:
